@@ -342,10 +342,14 @@ C06 += [
 ]
 def _xi(name, unwind=11, cost=120, **kw):
     return Job(name=name, driver="xml.drv.c", entry=kw.pop("entry", "hp_" + name), mode="plain", unwind=unwind, min_post=0, cost=cost, family="xmlimport", label="bounded", timeout=1500, objbits=12,
-               unwindset="hwloc__xml_import_distances.0:6,hwloc__xml_import_distances.3:4,hwloc__xml_import_distances.1:4,hwloc__xml_import_distances.2:4,hwloc___xml_import_info.0:7,verif_exact_string.0:4", **kw)
+               unwindset="hwloc__xml_import_distances.0:6,hwloc__xml_import_distances.3:4,hwloc__xml_import_distances.1:4,hwloc__xml_import_distances.2:4,hwloc___xml_import_info.0:7,verif_exact_string_of.0:4", **kw)
 C06 += [
     _xi("xml_import_distances.n%d" % n, entry="hp_xml_import_distances", defines={"XNBOBJS": n}, note="[nbobjs attribute = %d] " % n + "hwloc__xml_import_distances (distances2 / distances2hetero) against the CONTRACT of the XML state API: any sequence of <= 5 attributes (names from the pool of every name the function knows plus an unknown one, values arbitrary strings <= 2 chars), <= 3 children (info / indexes / u64values / unknown, <= 2 attributes each) with arbitrary contents <= 3 chars, any numbers, any topology flags and XML version: memory safe (stores into the arrays sized from nbobjs stay inside), returns 0/-1, hands at most one complete matrix to the core")
     for n in (2,)
+] + [
+    Job(name="xml_import_userdata", driver="xml.drv.c", entry="hp_xml_import_userdata", mode="plain", unwind=11, min_post=0, cost=60, family="xmlimport", label="bounded", timeout=1500, objbits=12,
+        unwindset="hwloc__xml_import_userdata.0:6,verif_exact_string_of.0:5,sprintf.0:13", defines={"XB": 4, "XNUM_MAX": "0xffffffffUL"},
+        note="hwloc__xml_import_userdata against the contract of the XML state API (get_content delivers exactly the expected length, as both backends do): any <= 5 attributes (length / encoding / name / unknown, arbitrary values or 'base64'), contents <= 4 bytes, announced lengths < 2^32 (beyond 3*2^62 BASE64_ENCODED_LENGTH wraps: observed, not decided), callback present or not, decoded or not, hwloc_decode_from_base64 as its contract: memory safe, the callback receives `length` readable bytes, close_content is only called after a successful get_content"),
 ]
 PROPS["C06"] = C06 + [j for j in C05 if j.name.startswith("base64_decode_safe")]   # the decoder is also a leaf of the XML import (userdata)
 
